@@ -747,8 +747,26 @@ func genC09(c *Ctx) {
 	genC09Rest(c, corpus, loopSafe)
 }
 
+// c09BigCompressed is a response of more than 64 KiB: question "host.local", a TXT answer with n bytes of
+// RDATA owned by a pointer to the question name, and an answer whose owner name "www" + pointer starts just
+// after offset 0x10000 (the pointer target 12 is far below the name's start: a 16-bit comparison wraps).
+func c09BigCompressed(n int, fill byte) []byte {
+	m := []byte{0x12, 0x34, 0x80, 0x00, 0, 1, 0, 2, 0, 0, 0, 0}
+	m = append(m, 4, 'h', 'o', 's', 't', 5, 'l', 'o', 'c', 'a', 'l', 0, 0, 1, 0, 1)
+	m = append(m, 0xC0, 12, 0, 16, 0, 1, 0, 0, 0, 30, byte(n>>8), byte(n))
+	m = append(m, bytes.Repeat([]byte{fill}, n)...)
+	m = append(m, 3, 'w', 'w', 'w', 0xC0, 12, 0, 1, 0, 1, 0, 0, 0, 30, 0, 4, 10, 0, 0, 1)
+	return m
+}
+
 func genC09Pointers(c *Ctx) {
 	r := c.Rng
+	// compressed names beyond the first 64 KiB of a message (RDATA up to 65535 makes that reachable)
+	for _, n := range []int{65400, 65495, 65496, 65497, 65500, 65508, 65509, 65535} {
+		m := c09BigCompressed(n, byte(n))
+		c.Case("llmnr.decode_message", B(m))
+		c.Case("llmnr.decode_name", B(m), I(int64(40+n)))
+	}
 	for _, tgt := range []byte{0, 1, 2, 3, 4, 5, 6, 7, 8} {
 		for off := 0; off < 8; off++ {
 			data := []byte{1, 'a', 0, 0xC0, tgt, 1, 'b', 0xC0, 3, 0xC0, 7, 0xC0}
